@@ -8,10 +8,10 @@ mkdir -p $out
 R=${REPO:-/repo}
 if [ "$mode" = ld ]; then W=MYTH_WRAP_LD; else W=MYTH_WRAP_DL; fi
 WRAP=$W engine/build_lib.sh $out/lib -O0 -g -DMYTH_VERIF
-gcc -O1 -g -fno-omit-frame-pointer -w -I$R/include -I$R/src -Iengine/mythmc -c engine/mythmc/mythv.c -o $out/mythv.o
-gcc -O0 -g -w -D_GNU_SOURCE -D_XOPEN_SOURCE -I$R/include -I$R/src -c engine/mythmc/mythv_lib.c -o $out/mythv_lib.o
+gcc -O1 -g -fno-omit-frame-pointer -w -I$R/include -I$R/src -Iengine/fallback -Iengine/mythmc -c engine/mythmc/mythv.c -o $out/mythv.o
+gcc -O0 -g -w -D_GNU_SOURCE -D_XOPEN_SOURCE -I$R/include -I$R/src -Iengine/fallback -c engine/mythmc/mythv_lib.c -o $out/mythv_lib.o
 gcc -O1 -g -w -Iengine/mythmc -c engine/mythmc/explore.c -o $out/explore.o
-gcc -O0 -g -w -I$R/include -I$R/src -Iengine/mythmc -Iharness -c $src -o $out/harness.o
+gcc -O0 -g -w -I$R/include -I$R/src -Iengine/fallback -Iengine/mythmc -Iharness -c $src -o $out/harness.o
 if [ "$mode" = ld ]; then
   gcc -o $out/$name $out/harness.o $out/mythv.o $out/mythv_lib.o $out/explore.o $out/lib/*.o @$R/src/myth-ld.opts -lpthread -ldl
 else
